@@ -38,7 +38,7 @@ PIPE_QUERIES = {
 }
 
 
-def _pipe_obl(qname, rows, policy, timeout):
+def _pipe_obl(qname, rows, policy, timeout, close_on_finish=False):
     query, header = PIPE_QUERIES[qname]
     pa, pb, po, texpr = qh.table_params('a', (['cc'] if policy == 'quoted' else ['cz', 'cc', 'cz'][:rows]) if rows <= 3 else None)
     rows = 1 if policy == 'quoted' else rows
@@ -55,7 +55,7 @@ seen_fault = []
 it = stubs.CountingIterator(T, hook=lambda n: seen_fault.append(pipe.calls > pipe.fail_at))
 if HEADER:
     it.get_header = lambda: H
-w = rbql_csv.CSVWriter(pipe, False, None, ',', POLICY)
+w = rbql_csv.CSVWriter(pipe, CLOSE_ON_FINISH, None, ',', POLICY)
 try:
     rbql_engine.query(QUERY, it, w, [])
     status = 'returned'
@@ -70,9 +70,9 @@ pulled_ok = (pulls_after_fault <= (1 if header_fault else 0)) if STREAMING else 
 complete_ok = (text == full.text()) if pipe.calls <= pipe.fail_at else True
 return ((status, is_prefix, extra_writes_ok, pulled_ok, complete_ok), ('returned', True, True, True, True))
 ''' % texpr)
-    imports = 'from vf import qh\nfrom vf import csvh\nQUERY = %r\nHEADER = %r\nPOLICY = %r\nSTREAMING = %r\n' % (query, header, policy, streaming)
+    imports = 'from vf import qh\nfrom vf import csvh\nQUERY = %r\nHEADER = %r\nPOLICY = %r\nSTREAMING = %r\nCLOSE_ON_FINISH = %r\n' % (query, header, policy, streaming, close_on_finish)
     src = harness(imports, [('k', 'int')] + pa, ['k >= 0'] + pb + po, body)
-    return Obl('pipe[%s,%s,rows=%d]' % (qname, policy, rows), src, timeout=timeout,
+    return Obl('pipe[%s,%s,rows=%d%s]' % (qname, policy, rows, ',owned-stream' if close_on_finish else ''), src, timeout=timeout,
                meta={'query': query, 'bounds': 'every write index k >= 0 at which the pipe breaks x every %d-row table of 1-character strings' % rows})
 
 
@@ -245,6 +245,8 @@ def obligations(tier, seed):
     for qn in PIPE_QUERIES:
         for rows in ((2,) if quick else (1, 2, 3)):
             obs.append(_pipe_obl(qn, rows, 'quoted' if (len(qn) + rows) % 2 else 'simple', t))
+    for qn in ('stream', 'sorted', 'aggregated', 'header') if quick else list(PIPE_QUERIES):
+        obs.append(_pipe_obl(qn, 2, 'simple', t, close_on_finish=True))    # the writer owns the stream: close() flushes and fails again on a broken pipe
     for policy, lens, chunk, header, vq in ([('quoted', (1, 1), 1024, False, False), ('quoted', (2, 1), 1, False, True), ('quoted_rfc', (1, 2), 1, True, False), ('simple', (2, 2), 2, False, True),
                                             ('quoted', (0, 2), 1, True, True)] if quick else
                                            [(p, l, c, h, v) for p in ('quoted', 'quoted_rfc', 'simple') for l in ((1, 1), (2, 1), (1, 2), (2, 2), (3,), (0, 2, 1)) for c in (1, 2, 1024) for h, v in ((False, False), (True, True))]):
